@@ -74,6 +74,42 @@ def obs_runs(res, pid, plans, props, wd, tag, nontrivial=None, detail=0, panic_i
     return outs
 
 
+def conform_sample(res, pid, plans, wd, tag, k):
+    """Binding on random executions: the first k plans are run again with full snapshots and every
+    packet logged, and Trace_Sys replays them through System.tla.  Drift is recorded, never a violation."""
+    core.build()
+    sel = [p for p in plans if not any(pc["kind"] == "synctest" for pc in p["cfg"]["peers"])][:k]
+    jobs = [(i, p, os.path.join(wd, "%s_cf%02d.ndjson" % (tag, i))) for i, p in enumerate(sel)]
+
+    def one(job):
+        i, p, path = job
+        q = dict(p)
+        q["frames"] = min(int(p.get("frames", 200)), 250)      # Trace_Sys is ~250 lines/s
+        q["max_ms"] = min(int(p.get("max_ms", 60000)), 15000)
+        if q.get("fault_until"):
+            q["fault_until"] = min(q["fault_until"], 6000)
+        core.drive([q], path, detail=2)
+        return i, path, validate_sys(path, os.path.join(wd, "mdcf_%s_%02d" % (tag, i)), timeout=1500)
+
+    drift = 0
+    for i, path, d in core.parallel(one, jobs, n=6):
+        res.traces += 1
+        res.states += d["states"]
+        res.transitions += d["states"]
+        if d["drift"]:
+            drift += 1
+            res.extra.setdefault("conformance_drift", []).append({"trace": path, "first": d["drift"]})
+        else:
+            for pth in (path, path + ".plans.json"):
+                try:
+                    os.remove(pth)
+                except OSError:
+                    pass
+    res.extra["conformance_" + tag] = {"random_runs_replayed_through_System": len(sel), "drift": drift}
+    if drift:
+        core.log("[%s] CONFORMANCE-DRIFT in %d/%d random runs (%s)" % (pid, drift, len(sel), tag))
+
+
 def mc_run(res, name, module, cfg, wd, workers=8, timeout=900, extra=None, expect_actions=None,
            xmx="6g", env=None):
     """Exhaustive / simulated TLC run of a model-checking configuration.  Returns TLC's output.
